@@ -38,6 +38,15 @@ def make_patterns(case):
         arr = np.exp(-0.5 * (((rr - cr) / sr) ** 2 + ((cc - cq) / sq) ** 2)) + rng.uniform(0.005, 0.1)
         if kind == "counts":
             arr = rng.poisson(arr * rng.choice([5.0, 50.0, 2000.0])).astype(np.float64) + 1.0
+    elif kind == "big":
+        # large datasets: float32 noise made directly in float32 plus one bright pixel per pattern at a
+        # seed-derived position, so every pattern has its own clearly off-centre centre of mass
+        arr = rng.random((a, b, H, W), dtype=np.float32) + np.float32(0.05)
+        ii, jj = np.meshgrid(np.arange(a), np.arange(b), indexing="ij")
+        arr[ii, jj, rng.integers(0, H, (a, b)), rng.integers(0, W, (a, b))] += np.float32(0.25 * H * W)
+        if np.dtype(case["dtype"]) != np.float32 or not np.all(arr > 0):
+            raise ValueError("big patterns are float32 and positive (generator bug)")
+        return arr
     elif kind == "delta":
         # one bright pixel at an integer position that is an integer plane (or a constant) over the
         # scan, on a uniform positive background: the exact centre of mass is an affine function of
@@ -239,7 +248,10 @@ def _origin_op(draw, name, scan, det, nver):
         return op
     if name == "set_fitted":
         pair = st.tuples(st.integers(0, H - 1), st.integers(0, W - 1)).map(list)
-        if draw(st.integers(0, 3)) == 0:
+        variant = draw(st.sampled_from(["per_pattern", "at_target", "single", "per_pattern"]))
+        if variant == "at_target":  # already on the corner: the shift is the identity
+            return {"op": name, "origins": [[0, 0]] if draw(st.booleans()) else [[0, 0]] * n}
+        if variant == "single":
             return {"op": name, "origins": [draw(pair)]}
         return {"op": name, "origins": draw(st.lists(pair, min_size=n, max_size=n))}
     if name == "shift":
@@ -276,6 +288,11 @@ def origin_history_cases(draw):
             if nm == "fit" and draw(st.booleans()):
                 out.append(draw(_origin_op("set_measured", scan, det, nver)))
             out.append(draw(_origin_op(nm, scan, det, nver)))
+            if nm == "shift" and draw(st.integers(0, 2)) == 0:
+                # a series of shifts on the same instance, each with freshly set origins
+                for _ in range(draw(st.integers(1, 2))):
+                    out.append(draw(_origin_op("set_fitted", scan, det, nver)))
+                    out.append(draw(_origin_op("shift", scan, det, nver)))
         return out
 
     steps = ops(_ORIGIN_OPS, 0, 3)
@@ -285,6 +302,9 @@ def origin_history_cases(draw):
     steps += ops(_ORIGIN_FILL, 0, 2)
     steps.append(draw(_origin_op("measure", scan, det, nver)))
     steps += ops(_ORIGIN_OPS, 0, 4)
+    if steps[-1]["op"] != "measure":
+        # whatever the history did, the instance must still describe its data at the end
+        steps.append(draw(_origin_op("measure", scan, det, nver)))
     case["steps"] = steps
     return case
 
@@ -360,4 +380,33 @@ def side_shift_cases(draw, side, mode):
     case["batch"] = draw(st.one_of(st.none(), st.integers(1, n)))
     case["mode"] = mode
     case["enumerated_side"] = side
+    return case
+
+
+# ------------------------------------------------------------------------------------------------
+# large datasets: total number of intensity values right below / right above a power of two
+# ------------------------------------------------------------------------------------------------
+PRIMES = [5, 7, 11, 13, 17, 19, 23, 29, 31, 37, 41]
+
+
+@st.composite
+def big_com_cases(draw, exp, side):
+    """A `com`-like case whose dataset holds the largest (side='below') or smallest (side='above')
+    number of values a*b*H*W on that side of 2**exp that the drawn a, H, W allow.  The number of scan
+    rows a is prime, so no partition of the scan into equal groups of rows is exact; detector sides
+    32..128."""
+    a = draw(st.sampled_from(PRIMES))
+    H = draw(st.integers(32, 128))
+    W = draw(st.integers(32, 128))
+    if W == H:
+        W = H + 1 if H < 128 else H - 1
+    T = 2**exp
+    unit = a * H * W
+    b = max(1, (T - 1) // unit) if side == "below" else -(-T // unit)
+    n = a * b
+    case = {"kind": "bigcom", "scan": [a, b], "det": [H, W], "pattern": "big", "dtype": "float32", "seed": draw(SEEDS)}
+    case["near"] = "2^%d-%s" % (exp, side)
+    case["fit"] = draw(st.sampled_from(["plane", "constant"]))
+    case["batches"] = [draw(st.integers(max(1, n // 7), n))]
+    case["mask"] = {"type": "binary", "seed": draw(SEEDS), "keep": 0.5} if draw(st.integers(0, 2)) == 0 else None
     return case
